@@ -130,6 +130,7 @@ func childMain() {
 			return nil
 		})
 		p.SetSessionPolicyUpdater(func(ctx context.Context, id string, u *radius.PolicyUpdate) error {
+			kp.addPolicy(id, u) // retention workload: the update object is kept beyond the callback's return (no-op unless enabled)
 			g.pass("policy", hex.EncodeToString([]byte(id)), "")
 			g.apply(hex.EncodeToString([]byte(id)), 0)
 			emit(event{K: "policy", SID: hex.EncodeToString([]byte(id))})
@@ -181,6 +182,7 @@ func childMain() {
 	srv.SetCoAHandler(func(ctx context.Context, req *radius.CoARequest) *radius.CoAResponse {
 		inflight.Add(1)
 		defer inflight.Add(-1)
+		kp.addCoA(req) // retention workload: pointer kept + deep copy taken at hand-over (no-op unless enabled)
 		resp := coaInner(ctx, req)
 		e := event{K: "coa", SID: hs(req.SessionID), User: hs(req.Username), CS: hs(req.CallingStation), FIP: hex.EncodeToString(req.FramedIP), NAS: hex.EncodeToString(req.NASIPAddress),
 			Filter: hs(req.FilterID), STO: req.SessionTimeout, ITO: req.IdleTimeout, OK: resp.Success, EC: resp.ErrorCause, Msg: hs(resp.Message)}
@@ -193,6 +195,7 @@ func childMain() {
 	srv.SetDisconnectHandler(func(ctx context.Context, req *radius.DisconnectRequest) *radius.DisconnectResponse {
 		inflight.Add(1)
 		defer inflight.Add(-1)
+		kp.addDisc(req)
 		resp := discInner(ctx, req)
 		emit(event{K: "disc", SID: hs(req.SessionID), User: hs(req.Username), CS: hs(req.CallingStation), FIP: hex.EncodeToString(req.FramedIP), NAS: hex.EncodeToString(req.NASIPAddress),
 			OK: resp.Success, EC: resp.ErrorCause, Msg: hs(resp.Message)})
@@ -239,6 +242,8 @@ func childMain() {
 			emit(event{Reply: c})
 		case c == "T": // the session table
 			emit(event{Reply: c, Tab: g.table()})
+		case c == "K" || c == "V" || c == "A" || c == "F": // retention workload (retain_test.go): keep / verify / apply deferred / forget
+			emit(kp.command(c))
 		case c == "X":
 			os.Exit(0)
 		}
